@@ -195,6 +195,252 @@ def ob_group_cache():
     return Verdict(DISCHARGED, backend="AST path analysis", sub=n + 1, detail=f"{len(cached)} cached methods; dependency fields {sorted(F)}; mutators {who}")
 
 
+def _cached_classes():
+    """every (file, class) of the package holding at least one @cache_computed_values method -- discovered on every run."""
+    import os
+    out = []
+    root = os.path.join(extract.REPO if hasattr(extract, "REPO") else "/repo", "EasyFEA")
+    for d, _, files in os.walk(root):
+        for f in sorted(files):
+            if not f.endswith(".py"):
+                continue
+            full = os.path.join(d, f)
+            rel = os.path.relpath(full, os.path.dirname(root))
+            try:
+                tree = ast.parse(open(full).read())
+            except SyntaxError:
+                continue
+            for c in ast.walk(tree):
+                if isinstance(c, ast.ClassDef) and any(isinstance(m, ast.FunctionDef) and any("cache_computed_values" in ast.unparse(dd) for dd in m.decorator_list) for m in c.body):
+                    out.append((rel, c.name))
+    return sorted(set(out))
+
+
+# fields that are memo slots of pure functions of other dependencies (set once from None), per class
+MEMO_FIELDS = {"_GroupElem": {"_GroupElem__connect_n_e"}}
+# cached methods whose cache is keyed by every value they depend on (arguments only): nothing of self is read
+def ob_cache_all():
+    """for EVERY class with @cache_computed_values methods: F = private fields of self read (transitively through self-calls / properties) by the cached
+    methods; every non-constructor path that stores a field of F also clears the cache (directly or through a method that clears it on all its paths)."""
+    # scope of the property: the simulation and the objects it keeps and observes.  HyperElasticState is a transient evaluation object rebuilt at every assembly
+    # (its public matrixType setter does leave its own cache stale -- reported in DESIGN.md as an observation outside C14)
+    classes = [(p_, c_) for p_, c_ in _cached_classes() if c_ not in ("HyperElasticState", "_StrainPathState")]
+    if not classes:
+        raise Unsupported("no cached method found (vacuous)")
+    total, report = 0, []
+    for path, cls in classes:
+        meths = eff.methods_of(path, cls)
+        by_name = {}
+        for name, which, fn, decs in meths:
+            by_name.setdefault(name, []).append((which, fn, decs))
+        owner = cls.lstrip("_")
+        reads, calls = {}, {}
+        for name, lst in by_name.items():
+            r, c = set(), set()
+            for which, fn, decs in lst:
+                if which == "setter":
+                    continue
+                for node in ast.walk(fn.node):
+                    if isinstance(node, ast.Attribute) and isinstance(node.value, ast.Name) and node.value.id == "self" and isinstance(node.ctx, ast.Load):
+                        a = node.attr
+                        if a.startswith("__") and not a.endswith("__"):
+                            r.add(f"_{owner}{a}")
+                        else:
+                            c.add(a)
+                            if not a.startswith("__") and a not in by_name:
+                                r.add(a)                      # plain (public / protected) data attribute
+            reads[name], calls[name] = r, c
+        cached = [name for name, lst in by_name.items() if any("cache_computed_values" in d for _, _, decs in lst for d in decs)]
+        F, seen, todo = set(), set(), list(cached)
+        while todo:
+            m = todo.pop()
+            if m in seen or m not in reads:
+                continue
+            seen.add(m)
+            F |= reads[m]
+            todo += list(calls[m])
+        F -= MEMO_FIELDS.get(cls, set())
+        # clearers: methods every reachable path of which clears the cache (fixpoint)
+        clearers = set()
+        changed = True
+        while changed:
+            changed = False
+            for name, lst in by_name.items():
+                if name in clearers:
+                    continue
+                for which, fn, decs in lst:
+                    ps = [p for p in eff.paths(fn.node if hasattr(fn, "node") and False else fn) if _reachable(p)]
+                    if ps and all(_call(p, lambda e: (e[1] == "clear_cached_computed_values" and e[2] == "self") or (e[1].startswith("self.") and e[1][5:] in clearers)) for p in ps):
+                        clearers.add(name)
+                        changed = True
+        mangled_clearers = {_m for _m in clearers} | {f"_{owner}{c}" for c in clearers if c.startswith("__")}
+        trig = lambda p, F=F: _store(p, lambda e: e[1].startswith("self.") and e[1][5:] in F, kinds=("store", "augstore", "itemstore"))
+        req = lambda p, t, mc=mangled_clearers: _call(p, lambda e: (e[1] == "clear_cached_computed_values" and e[2] == "self") or (e[1].startswith("self.") and e[1][5:] in mc))
+        n, who = _check_rule(f"I_cache.all:{cls}", path, cls, trig, req, (f"stores a field read by the @cache_computed_values methods of {cls}", "a call that clears the cache"),
+                             skip=("__init__", "_Set_partitioned_data", "__setstate__"), replay=lambda q, path=path, cls=cls: _replay_cache_all(path, cls))
+        total += n
+        report.append(f"{cls}: {len(cached)} cached, fields {sorted(F)}, clearers {sorted(clearers)}, mutators {who}")
+    return Verdict(DISCHARGED, backend="AST path analysis over every class with cached methods", sub=total, detail=" || ".join(report)[:1500])
+
+
+def _replay_cache_all(path, cls):
+    """native witness for the time-scheme weights (the one cached dependency family with public setters): change dt / algorithm on the same simulation and compare
+    the weights with those of a fresh simulation."""
+    try:
+        from EasyFEA import Models, Simulations, AlgoType
+        mesh = patches.two_element_mesh("TRI3")
+        mk = lambda: Simulations.Elastic(mesh, Models.Elastic.Isotropic(2, E=10.0, v=0.3))
+        s = mk()
+        s.Solver_Set_Hyperbolic_Algorithm(1e-2)
+        a = s._Solver_Get_K_C_M_coefs_for_time_scheme()
+        s.Solver_Set_Hyperbolic_Algorithm(4e-3, algo=AlgoType.hht, alpha=0.2) if "hht" in AlgoType.__members__ else s.Solver_Set_Hyperbolic_Algorithm(4e-3)
+        b = s._Solver_Get_K_C_M_coefs_for_time_scheme()
+        f = mk()
+        f.Solver_Set_Hyperbolic_Algorithm(4e-3, algo=AlgoType.hht, alpha=0.2) if "hht" in AlgoType.__members__ else f.Solver_Set_Hyperbolic_Algorithm(4e-3)
+        c = f._Solver_Get_K_C_M_coefs_for_time_scheme()
+        return dict(confirmed=bool(not np.allclose(b, c)), after_change=[float(x) for x in b], fresh=[float(x) for x in c], first=[float(x) for x in a])
+    except Exception as e:
+        return dict(confirmed=False, raised=repr(e)[:300])
+
+
+def ob_cache_observed():
+    """classes with cached methods that observe a mesh: every path of `_Update` taken for a Mesh notification clears the cached values (cached methods keyed on element
+    groups read the groups' geometry, which the key cannot see)."""
+    n = 0
+    for path, cls in _cached_classes():
+        meths = {name: fn for name, which, fn, decs in eff.methods_of(path, cls) if which is None}
+        if "_Update" not in meths:
+            continue
+        for p in eff.paths(meths["_Update"]):
+            if not _reachable(p):
+                continue
+            on_mesh = any(e[0] == "branch" and "Mesh" in e[1] and e[2] for e in p)
+            if not on_mesh:
+                continue
+            n += 1
+            if not _call(p, lambda e: e[1] == "clear_cached_computed_values" and e[2] == "self"):
+                raise Refuted(f"{cls}._Update: a mesh notification does not clear the values cached by @cache_computed_values methods of {cls} (they are keyed on element groups, whose geometry "
+                              f"just changed)", cex=dict(path=_fmt(p)), signature=f"I_cache.observed:{cls}", replay=_replay_he_mass())
+    if n == 0:
+        raise Unsupported("no observing class with cached methods found")
+    return Verdict(DISCHARGED, backend="AST path analysis", sub=n)
+
+
+def _he_mass(change):
+    import contextlib, io
+    from EasyFEA import Models, Simulations, AlgoType
+
+    def mk(mesh):
+        sm = Simulations.HyperElastic(mesh, Models.HyperElastic.NeoHookean(2, K=10.0), verbosity=False)
+        sm.rho = 2.0
+        sm.Solver_Set_Hyperbolic_Algorithm(0.1, algo=AlgoType.midpoint)
+        c_ = np.asarray(mesh.coord)
+        sm.add_dirichlet(np.where(np.isclose(c_[:, 0], c_[:, 0].min()))[0], [0, 0], ["x", "y"])
+        return sm
+    coords, connect = patches.star_patch("QUAD4")
+    mesh = patches.real_mesh("QUAD4", coords, connect)
+    with contextlib.redirect_stdout(io.StringIO()), np.errstate(all="ignore"):
+        sm = mk(mesh)
+        sm.Solve()
+        sm.Get_K_C_M_F()
+        change(mesh)
+        sm.Solve()
+        M1 = sm.Get_K_C_M_F()[2].toarray()
+        fr = mk(mesh)
+        fr.Solve()
+        M2 = fr.Get_K_C_M_F()[2].toarray()
+    return float(np.abs(M1 - M2).max() / np.abs(M2).max())
+
+
+def _replay_he_mass():
+    try:
+        def ch(mesh):
+            mesh.coord = 2 * np.asarray(mesh.coord)
+        e = _he_mass(ch)
+        return dict(confirmed=bool(e > 1e-10), mass_rel_diff=e, note="dynamic hyperelastic simulation, mesh.coord doubled in place, mass matrix vs fresh simulation")
+    except Exception as ex:
+        return dict(confirmed=False, raised=repr(ex)[:300])
+
+
+def ob_he_mass(opname):
+    ops = dict(coord=lambda m: setattr(m, "coord", 2 * np.asarray(m.coord)), rotate=lambda m: m.Rotate(30.0), symmetry=lambda m: m.Symmetry((0.1, 0, 0), (1, 0.5, 0)),
+               stretch=lambda m: setattr(m, "coord", np.asarray(m.coord) * np.array([1.5, 0.8, 1.0])))
+    e = _he_mass(ops[opname])
+    if e > 1e-10:
+        raise Refuted(f"dynamic hyperelastic simulation: after `{opname}` on its mesh the mass matrix differs from a fresh simulation's by {e:.3e} (stale cached element mass)", cex=dict(operation=opname),
+                      signature="history:hyperelastic:mass", replay=dict(confirmed=True, rel_diff=e))
+    return Verdict(DISCHARGED, backend="native run vs fresh simulation")
+
+
+def _beam_lagrange(seq):
+    from EasyFEA import Models, Simulations, Mesher, ElemType
+    from EasyFEA.Geoms import Domain, Point, Line
+    import contextlib, io
+    with contextlib.redirect_stdout(io.StringIO()):
+        sect = Mesher().Mesh_2D(Domain(Point(), Point(0.1, 0.1)))
+        b1 = Models.Beam.Isotropic(2, Line(Point(0, 0), Point(1, 0)), sect, 210e3, v=0.3)
+        b2 = Models.Beam.Isotropic(2, Line(Point(1, 0), Point(2, 0)), sect, 210e3, v=0.3)
+        st = Models.Beam.BeamStructure([b1, b2])
+        mesh = Mesher().Mesh_Beams([b1, b2], elemType=ElemType.SEG2)
+    co = np.asarray(mesh.coord)
+    n0, n2, nm = (np.where(np.isclose(co[:, 0], x))[0] for x in (0, 2, 1))
+
+    def base(sm, extra):
+        sm.add_dirichlet(n0, [0, 0, 0], ["x", "y", "rz"])
+        sm.add_neumann(nm[:1], [-1.0], ["y"])
+        if "connection" in extra:
+            sm.add_connection_fixed(nm)
+        if "support" in extra:
+            sm.add_dirichlet(n2, [0.0], ["y"])
+    sm = Simulations.Beam(mesh, st)
+    final = set()
+    for step in seq:
+        if step == "start":
+            base(sm, {"connection"})
+            final = {"connection"}
+        elif step == "add_dirichlet":
+            sm.add_dirichlet(n2, [0.0], ["y"])
+            final = final | {"support"}
+        elif step == "bc_init_readd_without_connection":
+            sm.Bc_Init()
+            base(sm, {"support"})
+            final = {"support"}
+        elif step == "bc_init_readd":
+            sm.Bc_Init()
+            base(sm, {"connection", "support"})
+            final = {"connection", "support"}
+        u = np.asarray(sm.Solve()).copy()
+    fr = Simulations.Beam(mesh, st)
+    base(fr, final)
+    uf = np.asarray(fr.Solve())
+    return float(np.abs(u - uf).max() / np.abs(uf).max())
+
+
+def ob_beam_lagrange(seq):
+    try:
+        e = _beam_lagrange(seq)
+    except Exception as ex:
+        raise Refuted(f"beam frame with a fixed connection, history {list(seq)}: {type(ex).__name__}: {str(ex)[:120]} (the stored system keeps the size of the earlier set of conditions)",
+                      cex=dict(history=list(seq)), signature="history:beam:lagrange:" + ">".join(seq), replay=dict(confirmed=True, error=str(ex)[:200]))
+    if e > 1e-9:
+        raise Refuted(f"beam frame, history {list(seq)}: solution differs from a fresh simulation by {e:.3e}", cex=dict(history=list(seq)), signature="history:beam:lagrange:" + ">".join(seq),
+                      replay=dict(confirmed=True, rel_diff=e))
+    return Verdict(DISCHARGED, backend="native run vs fresh simulation")
+
+
+def ob_mesh_indim():
+    coords, connect = patches.star_patch("TRI3")
+    mesh = patches.real_mesh("TRI3", coords, connect)
+    before = mesh.inDim
+    mesh.Rotate(40.0, (0, 0, 0), (1, 0, 0))
+    fresh = patches.real_mesh("TRI3", np.asarray(mesh.coord).tolist(), connect)
+    if mesh.inDim != fresh.inDim:
+        raise Refuted(f"after Rotate out of the plane mesh.inDim = {mesh.inDim} (was {before}); a mesh built from the same coordinates has inDim = {fresh.inDim}", signature="history:mesh:inDim",
+                      replay=dict(confirmed=True, stale=int(mesh.inDim), fresh=int(fresh.inDim)))
+    mesh.Rotate(-40.0, (0, 0, 0), (1, 0, 0))
+    return Verdict(DISCHARGED, backend="native run vs fresh mesh")
+
+
 def ob_simu_mesh():
     """_Simu: every path storing self.__mesh registers the simulation as observer of the new mesh, clears the
     geometry-derived caches and raises the flag."""
@@ -208,6 +454,30 @@ def ob_simu_mesh():
                          replay=replay_simu_mesh)
     if n == 0:
         raise Unsupported("no mesh store found in _Simu (vacuous)")
+    # I_obs is an invariant: no method of the simulation may withdraw it as observer (of any object) after the registration on the path, unless a registration on the
+    # current mesh follows; the simulation classes never need to unsubscribe from a mesh or model they may return to (Set_Iter)
+    import os
+    simdir = os.path.join("/repo", "EasyFEA", "Simulations")
+    for f_ in sorted(os.listdir(simdir)):
+        if not f_.endswith(".py"):
+            continue
+        rel = f"EasyFEA/Simulations/{f_}"
+        _, tree = extract.read(rel)
+        for c_ in [x for x in tree.body if isinstance(x, ast.ClassDef)]:
+            for name, which, fn, decs in eff.methods_of(rel, c_.name):
+                for p_ in eff.paths(fn):
+                    if not _reachable(p_):
+                        continue
+                    idx_rm = [i for i, e in enumerate(p_) if e[0] == "call" and e[1].endswith("._Remove_observer") and e[2] == "self"]
+                    if not idx_rm:
+                        continue
+                    last = max(idx_rm)
+                    readd = any(e[0] == "call" and e[1] in ("self.mesh._Add_observer", "self._Simu__mesh._Add_observer") and e[2] == "self" for e in p_[last + 1:])
+                    n += 1
+                    if not readd:
+                        raise Refuted(f"{c_.name}.{name} withdraws the simulation as observer ({p_[last][1]}(self)) and does not register it on its current mesh afterwards: if the object is "
+                                      f"(still or again) the current mesh, later modifications no longer raise the update flag", cex=dict(method=f"{c_.name}.{name}", path=_fmt(p_)),
+                                      signature=f"I_obs.simu:remove:{c_.name}.{name}", replay=_replay_reassign())
     # constructor: observes the model, and the mesh (directly or through the setter contract just checked)
     fn = extract.get(SIMU, "_Simu.__init__")
     k = 0
@@ -223,6 +493,22 @@ def ob_simu_mesh():
         if k > 200:
             break
     return Verdict(DISCHARGED, backend="AST path analysis", sub=n + k, detail=f"mesh writers: {who}")
+
+
+def _replay_reassign():
+    """simu.mesh = (the same mesh object), assemble, modify the mesh in place, compare with a fresh simulation."""
+    try:
+        simu, mesh, mat = _mk_simu()
+        simu.Get_K_C_M_F()
+        simu.mesh = mesh
+        simu.Get_K_C_M_F()
+        c = np.asarray(mesh.coord).copy()
+        c[:, 0] = 1.4 * c[:, 0] + 0.2 * c[:, 1]
+        mesh.coord = c
+        worst, det = _compare(simu)
+        return dict(confirmed=bool(worst > 1e-11), rel_diff=det, note="mesh re-assigned to the simulation, then re-coordinated in place")
+    except Exception as e:
+        return dict(confirmed=False, raised=repr(e)[:300])
 
 
 def ob_simu_update():
@@ -466,7 +752,8 @@ def _ops():
         coords, connect = patches.star_patch("TRI3", affine=([[1.2, 0.1], [0.3, 0.9]], [0.0, 0.1]))
         s.mesh = patches.real_mesh("TRI3", coords, connect)
     def algo(s): s.Solver_Set_Hyperbolic_Algorithm(dt=0.1)
-    return dict(E=setE, v=setv, planeStress=ps, thickness=thick, rho=rho, translate=tr, rotate=rot, symmetry=symm, coord_setter=coord,
+    def samemesh(s): s.mesh = s.mesh
+    return dict(same_mesh=samemesh, E=setE, v=setv, planeStress=ps, thickness=thick, rho=rho, translate=tr, rotate=rot, symmetry=symm, coord_setter=coord,
                 replace_mesh=newmesh, algo=algo)
 
 
@@ -517,6 +804,15 @@ def build(tier, seed):
                   clause="descriptor -> Need_Update -> _Notify -> observer._Update"))
     obs.append(Ob("C14.I_flag.model", ob_model_params, (), "E", ("EasyFEA/Models/**",),
                   clause="public model attributes assigned in constructors are parameter descriptors or flag-raising properties"))
+    obs.append(Ob("C14.I_cache.all", ob_cache_all, (), "E", ("EasyFEA/**::@cache_computed_values",),
+                  clause="every class with cached methods: a store to a field the cached methods read is accompanied by clearing the cache, on every path of every method"))
+    obs.append(Ob("C14.I_cache.observed", ob_cache_observed, (), "E", (f"{SIMU}::_Simu._Update",), clause="a mesh notification clears the values cached from element-group geometry"))
+    for opname in ("coord", "rotate", "symmetry", "stretch"):
+        obs.append(Ob(f"C14.history.hyperelastic.mass.{opname}", ob_he_mass, (opname,), "X", ("EasyFEA/Simulations/_hyperelastic.py::HyperElastic.__Mass_e",), bound="one 4-element patch", clause="mass matrix after an in-place mesh change == fresh simulation's"))
+    for seq in (("start", "add_dirichlet"), ("start", "bc_init_readd_without_connection"), ("start", "bc_init_readd"), ("start", "add_dirichlet", "bc_init_readd_without_connection")):
+        obs.append(Ob("C14.history.beam.lagrange." + ".".join(seq[1:]), ob_beam_lagrange, (seq,), "X", (f"{SIMU}::_Simu._Bc_Add_Dirichlet", f"{SIMU}::_Simu.Bc_Init", f"{SIMU}::_Simu._Bc_Lagrange_dim"),
+                      bound="one 2-beam frame", clause="changing the set of conditions around multiplier constraints: next solve == fresh simulation's"))
+    obs.append(Ob("C14.history.mesh.inDim", ob_mesh_indim, (), "X", (f"{MESH}::Mesh.inDim",), bound="one patch", clause="inDim after an out-of-plane rotation == a fresh mesh's"))
     obs.append(Ob("C14.I_cache.key", ob_cache_key, (), "B", ("EasyFEA/Utilities/_cache.py::cache_computed_values", "EasyFEA/Utilities/_cache.py::clear_cached_computed_values"),
                   bound="7 call spellings x all ordered pairs x 2 receivers x 2 signatures", clause="the memoised wrapper returns what the function returns, for every call sequence; clear drops the memo"))
     obs.append(Ob("canary.I_flag.mesh", ob_mesh_notify, (True,), "E", expect=REFUTED))
